@@ -54,6 +54,17 @@ async fn run_history(name: &str, cfg: HistoryCfg, blocks: usize, with_nft: bool,
     rep.count(&format!("histories.{}", name));
     let mut expiring_blocks = 0u64;
     for bi in 0..blocks {
+        // maybe start a fork a few blocks below the head (as History::step does); the new branch
+        // is extended from then on and overtakes the old one after a few blocks
+        if rng.below(1000) < h.cfg.fork_permille {
+            let anc = h.b.store.ancestors(&h.head);
+            if anc.len() > 3 {
+                let back = 1 + rng.below(2) as usize;
+                h.head = anc[anc.len() - 1 - back];
+                h.forks_started += 1;
+                rep.count("forks_started");
+            }
+        }
         // build the next block by hand so that NFT creations can be mixed in
         let parent = h.head;
         let mut txs = h.pick_txs(rng, &parent);
@@ -102,6 +113,17 @@ async fn run_history(name: &str, cfg: HistoryCfg, blocks: usize, with_nft: bool,
         };
         if !matches!(step.replica_result, Some(Added::Ok(_))) {
             rep.count("replica_refused");
+            // the replica has seen every branch (in arrival order), the producer only the one it
+            // builds on: a block its producer accepts and the replica refuses means the two
+            // disagree about what is due for rebroadcast
+            let pb = h.b.store.get(&parent).block.clone();
+            if pb.id + 1 > gp + 1 {
+                rep.violation(
+                    "C13|clause=replica-refuses-block-with-rebroadcasts",
+                    &format!("[{} gp={}] block {} (rebroadcasting block {}), built and accepted by its producer, is refused by a replica that received all branches: {:?}", name, gp, pb.id + 1, pb.id - gp, step.replica_result.as_ref().map(|x| x.short())),
+                    json!({"kind":"history","regime":name,"params":cfg.params.describe(),"chain_hex": h.b.store.ancestors(&step.hash).iter().map(|x| hex::encode(&h.b.store.get(x).bytes)).collect::<Vec<_>>()}),
+                );
+            }
             break;
         }
         let blk = h.b.store.get(&step.hash).block.clone();
@@ -136,6 +158,13 @@ async fn run_history(name: &str, cfg: HistoryCfg, blocks: usize, with_nft: bool,
         }
         expiring_blocks += 1;
         rep.count("expiring_blocks");
+        if step.reorg {
+            rep.count("reorgs");
+        }
+        // was the swept height contested (a block of another branch stored at that height)?
+        if h.b.store.map.values().filter(|s| s.id == n - gp - 1).count() > 1 {
+            rep.count("swept_heights_with_blocks_of_two_branches");
+        }
         rep.nontrivial(&format!("{}|{}|{}|{}", name, gp, n, atr_txs.len()));
         // ---- reference: unspent outputs of block m = n - gp - 1 on THIS chain, as of the parent
         let m = n - gp - 1;
@@ -214,6 +243,26 @@ async fn run_history(name: &str, cfg: HistoryCfg, blocks: usize, with_nft: bool,
                     }
                     if out.amount < input.amount {
                         rep.count("atr_with_fee");
+                    }
+                    // the rebroadcast fee, recomputed: size of the ORIGINAL transaction x the
+                    // parent block's smoothed fee per byte, deducted from what enters the rebroadcast
+                    let mblock = h.b.store.ancestors(&parent).into_iter().find(|a| h.b.store.get(a).id == m).map(|a| h.b.store.get(&a).block.clone());
+                    if let Some(mb) = mblock {
+                        if let Some(otx) = mb.transactions.get(orig.tx_ordinal as usize) {
+                            let fee = otx.get_serialized_size() as u128 * h.b.store.get(&parent).block.avg_fee_per_byte as u128;
+                            rep.count("rebroadcast_fees_recomputed");
+                            if fee > 0 {
+                                rep.count("rebroadcast_fees_recomputed_nonzero");
+                            }
+                            if (input.amount as u128) <= fee || out.amount as u128 != input.amount as u128 - fee {
+                                rep.violation(
+                                    "C13|clause=rebroadcast-fee",
+                                    &format!("[{}] block {}: output {}-{}-{} enters the rebroadcast with {} and leaves with {}; the fee should be {} ({} bytes x {} per byte)", name, n, orig.block_id, orig.tx_ordinal, orig.slip_index, input.amount, out.amount, fee, otx.get_serialized_size(), h.b.store.get(&parent).block.avg_fee_per_byte),
+                                    witness.clone(),
+                                );
+                                return;
+                            }
+                        }
                     }
                     atr_out_value += out.amount as u128;
                     rep.count("outputs_rebroadcast");
